@@ -122,7 +122,7 @@ def oracle(seed, tier):
                 shutil.rmtree(rd, ignore_errors=True)
             if len(samples) < 4 and ref:
                 samples.append({"grid": [gtype, dim, opts], "world": path, "j1": ref})
-    return {"violations": viol[:20], "summary": {"cases": cases, "violations": len(viol), "nontrivial": nontriv}, "samples": samples}
+    return {"violations": trim_violations(viol, 20), "summary": {"cases": cases, "violations": len(viol), "nontrivial": nontriv}, "samples": samples}
 
 
 def replay(rp):
